@@ -165,15 +165,119 @@ pub fn run_case(reg: &Reg, s: &Spec, nodes: &[Node], lay: &Layout) -> Result<Out
     Ok(Outcome { text: r.text, side: r.side, want, got, root: r.root })
 }
 
+/// The values of name-value items put inside invisible groups, at every nesting level of the attribute lists (what an
+/// attribute written by `macro_rules!` with `$e:expr` fragments looks like). For an element only the contents of its
+/// `#[..]` attributes are touched. Values starting with `-` stay as they are (a negative literal is a literal only when
+/// written directly).
+pub fn group_values(ts: proc_macro2::TokenStream, in_list: bool) -> proc_macro2::TokenStream {
+    use proc_macro2::{Delimiter, Group, TokenStream, TokenTree};
+    let toks: Vec<TokenTree> = ts.into_iter().collect();
+    if !in_list {
+        // item level: look for `#` `[ .. ]`
+        let mut out = TokenStream::new();
+        let mut prev_hash = false;
+        for t in toks {
+            match t {
+                TokenTree::Group(g) if prev_hash && g.delimiter() == Delimiter::Bracket => {
+                    let mut ng = Group::new(Delimiter::Bracket, group_values(g.stream(), true));
+                    ng.set_span(g.span());
+                    out.extend([TokenTree::Group(ng)]);
+                    prev_hash = false;
+                }
+                TokenTree::Group(g) => {
+                    let mut ng = Group::new(g.delimiter(), group_values(g.stream(), false));
+                    ng.set_span(g.span());
+                    out.extend([TokenTree::Group(ng)]);
+                    prev_hash = false;
+                }
+                other => {
+                    prev_hash = matches!(&other, TokenTree::Punct(p) if p.as_char() == '#');
+                    out.extend([other]);
+                }
+            }
+        }
+        return out;
+    }
+    // list level: segments separated by top-level commas
+    let mut out = TokenStream::new();
+    let mut seg: Vec<TokenTree> = vec![];
+    let mut flush = |seg: &mut Vec<TokenTree>, out: &mut TokenStream| {
+        // path tokens, then `=` value | group | nothing
+        let eq = seg.iter().position(|t| matches!(t, TokenTree::Punct(p) if p.as_char() == '=' && p.spacing() == proc_macro2::Spacing::Alone));
+        let head_is_path = |n: usize| seg[..n].iter().all(|t| matches!(t, TokenTree::Ident(_)) || matches!(t, TokenTree::Punct(p) if p.as_char() == ':'));
+        match eq {
+            Some(k) if k > 0 && k + 1 < seg.len() && head_is_path(k) && !matches!(&seg[k + 1], TokenTree::Punct(p) if p.as_char() == '-') => {
+                let value: TokenStream = seg[k + 1..].iter().cloned().collect();
+                out.extend(seg[..=k].iter().cloned());
+                out.extend([TokenTree::Group(Group::new(Delimiter::None, value))]);
+            }
+            _ => {
+                let n = seg.len();
+                for (i, t) in seg.iter().enumerate() {
+                    match t {
+                        TokenTree::Group(g) if i + 1 == n && i > 0 && head_is_path(i) && g.delimiter() != Delimiter::None => {
+                            let mut ng = Group::new(g.delimiter(), group_values(g.stream(), true));
+                            ng.set_span(g.span());
+                            out.extend([TokenTree::Group(ng)]);
+                        }
+                        other => out.extend([other.clone()]),
+                    }
+                }
+            }
+        }
+        seg.clear();
+    };
+    for t in toks {
+        if matches!(&t, TokenTree::Punct(p) if p.as_char() == ',') {
+            flush(&mut seg, &mut out);
+            out.extend([t]);
+        } else {
+            seg.push(t);
+        }
+    }
+    flush(&mut seg, &mut out);
+    out
+}
+
 /// Parse the rendered text once and hand the right part to the receiver.
 pub fn call_entry(entry: &Entry, s: &Spec, text: &str) -> Result<darling::Result<Val>, Fail> {
+    call_entry_opt(entry, s, text, false)
+}
+
+pub fn call_entry_opt(entry: &Entry, s: &Spec, text: &str, grouped_values: bool) -> Result<darling::Result<Val>, Fail> {
+    let parse_meta = |text: &str| -> Result<syn::Meta, Fail> {
+        if grouped_values {
+            let ts: proc_macro2::TokenStream = text.parse().map_err(|e| Fail::new("l3:harness-render", format!("`{}` does not lex: {}", text, e)))?;
+            // the receiver's own name and parentheses first: `r( items )`
+            let mut toks: Vec<proc_macro2::TokenTree> = ts.into_iter().collect();
+            if let Some(proc_macro2::TokenTree::Group(g)) = toks.last().cloned() {
+                if toks.len() >= 2 && g.delimiter() != proc_macro2::Delimiter::None {
+                    let mut ng = proc_macro2::Group::new(g.delimiter(), group_values(g.stream(), true));
+                    ng.set_span(g.span());
+                    let n = toks.len();
+                    toks[n - 1] = proc_macro2::TokenTree::Group(ng);
+                }
+            }
+            syn::parse2(toks.into_iter().collect()).map_err(|e| Fail::new("l3:harness-render", format!("`{}` with grouped values is no meta item: {}", text, e)))
+        } else {
+            syn::parse_str(text).map_err(|e| Fail::new("l3:harness-render", format!("`{}` is no meta item: {}", text, e)))
+        }
+    };
+    let parse_item = |text: &str| -> Result<syn::DeriveInput, Fail> {
+        if grouped_values {
+            let ts: proc_macro2::TokenStream = text.parse().map_err(|e| Fail::new("l3:harness-render", format!("`{}` does not lex: {}", text, e)))?;
+            syn::parse2(group_values(ts, false)).map_err(|e| Fail::new("l3:harness-render", format!("`{}` with grouped values is no item: {}", text, e)))
+        } else {
+            syn::parse_str(text).map_err(|e| Fail::new("l3:harness-render", format!("`{}` is no item: {}", text, e)))
+        }
+    };
     let res = match s.tr {
         Trait::FromMeta => {
-            let m: syn::Meta = syn::parse_str(text).map_err(|e| Fail::new("l3:harness-render", format!("`{}` is no meta item: {}", text, e)))?;
+            let m: syn::Meta = parse_meta(text)?;
             catch(|| (entry.call)(&In::Meta(&m)))
         }
         _ => {
-            let di: syn::DeriveInput = syn::parse_str(text).map_err(|e| Fail::new("l3:harness-render", format!("`{}` is no item: {}", text, e)))?;
+            let di: syn::DeriveInput = parse_item(text)?;
             catch(|| match s.tr {
                 Trait::FromDeriveInput => (entry.call)(&In::DeriveInput(&di)),
                 Trait::FromAttributes => (entry.call)(&In::Attrs(&di.attrs)),
@@ -478,6 +582,36 @@ pub fn check_struct_case(ctx: &Ctx, reg: &Reg, s: &Spec, bytes: &[u8], prop: &st
                 let k = d.range(1, rot.len() - 1);
                 rot.rotate_left(k);
                 variants.push(("reordered", rot, lay.clone()));
+            }
+            // invisible groups are transparent: the same text with every name-value value (at every depth of the
+            // attribute lists) inside a None-delimited group gives the same value
+            {
+                ctx.eval();
+                let entry = reg.entries.get(&s.id).expect("entry");
+                match call_entry_opt(entry, s, &o.text, true)? {
+                    Ok(v) => {
+                        if erase_spans(&v) != base {
+                            let which = diff_field(&base, &erase_spans(&v));
+                            fail!(
+                                format!("c01:metamorphic:values-in-invisible-groups:{}", which.1),
+                                "{}: `{}` gives a different value when every name-value value is wrapped in an invisible group (field `{}`):\n  plain:   {:?}\n  grouped: {:?}",
+                                emit_short(s),
+                                o.text,
+                                which.0,
+                                base,
+                                v
+                            );
+                        }
+                    }
+                    Err(e) => fail!(
+                        "c01:metamorphic:values-in-invisible-groups:rejected",
+                        "{}: `{}` is rejected ({}) when every name-value value is wrapped in an invisible group",
+                        emit_short(s),
+                        o.text,
+                        e
+                    ),
+                }
+                ctx.class("metamorphic:values-in-invisible-groups");
             }
             for (what, ns, l) in variants {
                 ctx.eval();
